@@ -4,7 +4,7 @@
     kind 2: series     (2 results (wa wb wc wd) runs)
     kind 3: several cells, one AddSummaries call (3 conf N cells)                          *)
 From Perf Require Import Base.Bytes Base.Sx Base.B64 Base.SxF Base.Usort
-     Model.Dates Model.Bootstrap Model.Series.
+     Model.Dates Model.Bootstrap Model.BootstrapSpec Model.Series Model.SeriesSpec.
 Local Open Scope Z_scope.
 
 Definition obytes_eqb := option_eqb beq.
@@ -69,8 +69,8 @@ Definition out3_matches (m : option summary) (o : outcome3) : bool :=
   | _, _ => false
   end.
 
-Definition fmin (l : list b64) : b64 := fold_left (fun a x => if b64_lt x a then x else a) l (hd S754_nan l).
-Definition fmax (l : list b64) : b64 := fold_left (fun a x => if b64_lt a x then x else a) l (hd S754_nan l).
+(** [fmin], [fmax], [hull_lo], [hull_hi]: Model/BootstrapSpec.v (the hull the
+    theorems C18_bootstrap_centre_in_hull / ..._up_to_one_ulp are about) *)
 
 Definition boot_corr (nu de : list Z) (conf : b64) (n : nat) (seed : Z) (stream : list Z)
            (pub : outcome3) (ratios : list b64) (hook : outcome3) : bool :=
@@ -91,8 +91,8 @@ Definition boot_prop (nu de : list Z) (pub : outcome3) (again : bool) : bool :=
   | O3ok c l h =>
       b64_le l c && b64_le c h
       && (if forallb (fun x => b64_gt x b64_zero) (fnu ++ fde) then
-            let lo := b64_div (fmin fnu) (fmax fde) in
-            let hi := b64_div (fmax fnu) (fmin fde) in
+            let lo := hull_lo fnu fde in
+            let hi := hull_hi fnu fde in
             forallb (fun x => b64_le lo x && b64_le x hi) [c; l; h]
           else true)
   | _ => false
@@ -206,74 +206,16 @@ Definition model_out (combine : bool) (rs : list res) : outcomeS :=
   | None => OSerr
   end.
 
-(** ** well-formedness of the result set, executable (see Proofs/Series.v: wfset_b_spec) *)
-Definition nser (r : res) : option bytes := normalize_date (r_ser r).
-Definition ndate (r : res) : option bytes := normalize_date (r_exp r).
-Definition same_table (r r' : res) : bool := beq (r_unit r) (r_unit r') && beq (r_table r) (r_table r').
-
-Definition wf_a (rs : list res) : bool :=
-  forallb (fun r => forallb (fun r' =>
-    negb (is_num r && is_num r' && beq (r_nh r) (r_nh r')) || beq (r_ser r) (r_ser r')) rs) rs.
-Definition wf_c (rs : list res) : bool :=
-  forallb (fun r => forallb (fun r' =>
-    negb (is_den r && is_den r' && keqb (tkey r) (tkey r')) || beq (r_dh r) (r_dh r')) rs) rs.
-Definition wf_b (rs : list res) : bool :=
-  forallb (fun r => forallb (fun r' =>
-    negb (is_num r && is_num r' && same_table r r'
-          && match nser r, nser r' with Some a, Some b => beq a b | _, _ => false end)
-    || (beq (r_nh r) (r_nh r') && beq (bh_of rs (tkey r)) (bh_of rs (tkey r')))) rs) rs.
-Definition wf_d (rs : list res) : bool :=
-  forallb (fun r => forallb (fun r' =>
-    negb (is_num r && is_num r' && same_table r r' && beq (r_bench r) (r_bench r')
-          && match nser r, nser r' with Some a, Some b => beq a b | _, _ => false end
-          && match ndate r, ndate r' with Some a, Some b => beq a b | _, _ => false end)
-    || beq (r_exp r) (r_exp r')) rs) rs.
-
-(** ** declarative specification of the series of a result set (independent of
-    insertion order and of the fold in the model) *)
-Definition omap_filter {A B} (f : A -> option B) (l : list A) : list B :=
-  flat_map (fun x => match f x with Some y => [y] | None => [] end) l.
-
-Definition bmax (l : list bytes) : bytes := fold_left (fun a x => if bltb a x then x else a) l [].
-
-Definition osome_eqb (o : option bytes) (s : bytes) : bool :=
-  match o with Some x => beq x s | None => false end.
-
-Definition spec_cell (combine : bool) (R : list res) (b s : bytes) : list ocell :=
-  let N := filter (fun r => is_num r && beq (r_bench r) b && osome_eqb (nser r) s) R in
-  match N with
-  | [] => []
-  | _ =>
-      let dmax := bmax (omap_filter ndate N) in
-      let dens e := map r_val (filter (fun r => is_den r && beq (r_bench r) b && beq (r_exp r) e) R) in
-      if combine then
-        [mkO b s dmax (vsort (map r_val N)) (vsort (flat_map dens (dedup beq [] (map r_exp N))))]
-      else
-        let Nw := filter (fun r => osome_eqb (ndate r) dmax) N in
-        match Nw with
-        | [] => []
-        | w :: _ => [mkO b s dmax (vsort (map r_val Nw)) (vsort (dens (r_exp w)))]
-        end
+(** the executable well-formedness test [wf_a .. wf_d] and the declarative
+    specification of the series of a result set ([spec_series], with its parts
+    [nser ndate same_table omap_filter bmax osome_eqb spec_cell spec_hp
+    spec_table]) are in Model/SeriesSpec.v; Proofs/SeriesSpec.v proves that the
+    model meets the specification (series_meets_spec) *)
+Definition spec_seriesS (combine : bool) (rs : list res) : outcomeS :=
+  match spec_series combine rs with
+  | Some l => OSok l
+  | None => OSerr
   end.
-
-Definition spec_hp (R : list res) (s : bytes) : list (bytes * (bytes * bytes)) :=
-  match filter (fun r => is_num r && osome_eqb (nser r) s) R with
-  | r :: _ => [(s, (r_nh r, bh_of R (tkey r)))]
-  | [] => []
-  end.
-
-Definition spec_table (combine : bool) (rs : list res) (ut : bytes * bytes) : series :=
-  let R := filter (fun r => beq (r_unit r) (fst ut) && beq (r_table r) (snd ut)) rs in
-  let bl := usort bcmp (map r_bench R) in
-  let sl := usort bcmp (omap_filter nser (filter is_num R)) in
-  mkSeries (ustring (fst ut) (snd ut)) bl sl (flat_map (spec_hp R) sl)
-           (flat_map (fun b => flat_map (spec_cell combine R b) sl) bl).
-
-Definition spec_series (combine : bool) (rs : list res) : outcomeS :=
-  if existsb (fun r => match ndate r with None => true | Some _ => false end) rs
-     || existsb (fun r => is_num r && match nser r with None => true | Some _ => false end) rs
-  then OSerr
-  else OSok (map (spec_table combine rs) (usort cmp2 (map (fun r => (r_unit r, r_table r)) rs))).
 
 Definition permute (rs : list res) (ord : list nat) : list res :=
   flat_map (fun i => match nth_error rs i with Some r => [r] | None => [] end) ord.
@@ -290,7 +232,7 @@ Definition series_prop (rs : list res) (runs : list srun) : bool :=
   let wf := wf_a rs && wf_b rs && wf_c rs && wf_d rs in
   forallb (fun r => not_panic (ru_out r)) runs
   && (if wf then
-        forallb (fun r => outS_eqb true (spec_series (ru_combine r) rs) (outS_canon (ru_out r))) runs
+        forallb (fun r => outS_eqb true (spec_seriesS (ru_combine r) rs) (outS_canon (ru_out r))) runs
         && forallb (fun r => forallb (fun r' =>
               negb (Bool.eqb (ru_combine r) (ru_combine r'))
               || outS_eqb true (outS_canon (ru_out r)) (outS_canon (ru_out r'))) runs) runs
